@@ -6,3 +6,16 @@ Definition q_par_mult := par_mult Qc 0 Qcplus Qcmult.
 Definition q_par_mult_append := par_mult_append Qc 0 Qcplus Qcmult.
 Definition q_par_residual := par_residual Qc 0 Qcmult Qcminus.
 Definition q_par_mult_T := par_mult_T Qc 0 Qcplus Qcmult.
+(* distributed conversions / transpose / sums (Dist/ParConv.v) *)
+From Raptor Require Import Dist.ParConv.
+Definition q_par_transpose := par_transpose Qc Qcplus Qc_small.
+Definition q_par_add_local := par_add_local Qc Qcplus Qcopp Qc_small.
+Definition q_par_csr_to_coo := par_csr_to_coo Qc.
+Definition q_par_csr_to_csc := par_csr_to_csc Qc.
+Definition q_par_csr_to_csr := par_csr_to_csr Qc.
+Definition q_par_coo_to_csr := par_coo_to_csr Qc.
+Definition q_par_coo_to_csc := par_coo_to_csc Qc.
+Definition q_par_coo_to_coo := par_coo_to_coo Qc.
+Definition q_par_csc_to_csr := par_csc_to_csr Qc.
+Definition q_par_csc_to_coo := par_csc_to_coo Qc.
+Definition q_par_csc_to_csc := par_csc_to_csc Qc.
